@@ -41,4 +41,12 @@ def main():
         R.notes.append("round-timer part (props/c04_timer.py) not present in this tree")
     if c04_timer is not None:
         c04_timer.run(R)
+    # termination part of C04 at model level (good_round_decides), built separately: props/c04_live.py
+    try:
+        import c04_live
+    except ImportError:
+        c04_live = None
+        R.notes.append("termination part (props/c04_live.py) not present in this tree")
+    if c04_live is not None:
+        c04_live.run(R)
     R.finish()
